@@ -64,7 +64,7 @@ def run(ctx):
     _source(ctx, prog)
     _cap(ctx)
     _close_size(ctx)
-    _close_pay(ctx)
+    _close_pay(ctx, prog)
 
 
 def _open(ctx):
@@ -256,27 +256,28 @@ def _close_size(ctx):
     ctx.floor("close-size", cases, 4)
 
 
-def _close_pay(ctx):
+def _close_pay(ctx, prog):
     f = ctx.fn(r"gmsol_model::action::decrease_position::collateral_processor::Context::<'_, '_, M, DECIMALS>::add_price_impact_if_positive")
     if f is None:
         return
     POS = r"^Signed::is_positive\(price_impact\)$"
-    eff = [c for c in f.calls if re.search(r"(apply_delta_to_position_impact_pool|BaseMarketMutExt::apply_delta|add_pnl_token_amount)$", c.short)]
-    ctx.ob("close-impact-pay:guard", len(eff) == 3 and all(_guard(f, c.bb, POS) is True for c in eff),
-           "all three effects of add_price_impact_if_positive happen only under is_positive(price_impact): %s" % [c.short for c in eff], where=f.where())
+    # effects of the function and of the private helpers it enters (arguments / guards translated back to this function)
+    eff = [v for v in H.vcalls(prog, f) if re.search(r"(apply_delta_to_position_impact_pool|BaseMarketMutExt::apply_delta|add_pnl_token_amount)$", v.short)]
+    ctx.ob("close-impact-pay:guard", len(eff) == 3 and all(v.guard(POS) is True for v in eff),
+           "all three effects of add_price_impact_if_positive happen only under is_positive(price_impact): %s" % [v.short for v in eff], where=f.where())
     DEBIT = "Unsigned::checked_round_up_div(UnsignedAbs::unsigned_abs(price_impact), Price::pick_price(self.state.prices.index_token_price, false))"
     PAY = "CheckedDiv::checked_div(UnsignedAbs::unsigned_abs(price_impact), Price::pick_price(State::pnl_token_price(self.state), true))"
     rows = {}
-    for c in eff:
-        a = H.arg_at(c, len(c.args) - 1)
+    for v in eff:
+        a = v.args[-1]
         sign = 1
         x = H.peel(a, calls=("Option::ok_or",))
         if H.is_call(x, r"^Unsigned::to_opposite_signed$"):
             sign = -1
             x = H.peel(H.call_args(x)[0], calls=("Option::ok_or",))
-        rows[c.short.split("::")[-1]] = (sign, str(x))
+        rows[v.short.split("::")[-1]] = (sign, str(x))
     want = {"apply_delta_to_position_impact_pool": (-1, DEBIT), "apply_delta": (-1, PAY), "add_pnl_token_amount": (1, PAY)}
     ctx.ob("close-impact-pay:amounts", rows == want,
            "impact pool -= ceil(|impact|/index.min); liquidity pool -= floor(|impact|/pnl_token.max); trader += the same floor amount: %s" % rows, where=f.where())
-    side = [_s(c, 1) for c in eff if c.short == "BaseMarketMutExt::apply_delta"]
+    side = [str(v.arg(1)) for v in eff if v.short == "BaseMarketMutExt::apply_delta"]
     ctx.ob("close-impact-pay:pool-side", side == ["self.state.is_pnl_token_long"], "the paying liquidity side is the pnl token side: %s" % side, where=f.where())
